@@ -52,9 +52,21 @@ def openCleanB (img : Image) (size : Nat) (lives : List Live) : Bool :=
       | none => false
     | .error _ => false
 
-/-- **What a `true` of the run-time decision means for the whole open.** -/
+theorem getD_mem_or_default {α : Type} (l : List α) (i : Nat) (d : α) : l.getD i d ∈ l ∨ l.getD i d = d := by
+  by_cases h : i < l.length
+  · left
+    rw [List.getD_eq_getElem?_getD, List.getElem?_eq_getElem h]
+    exact List.getElem_mem h
+  · right
+    rw [List.getD_eq_getElem?_getD, List.getElem?_eq_none (by omega)]
+    rfl
+
+/-- **What a `true` of the run-time decision means for the whole open** (with TTL on: provided no index
+entry has expired at the time of the open). -/
 theorem openCleanB_sound {img : Image} {size : Nat} {lives : List Live} {o : Opts}
-    (hro : o.readOnly = false) (httl : o.ttlOn = false) (h : openCleanB img size lives = true) :
+    (hro : o.readOnly = false)
+    (hexp : o.ttlOn = true → ∀ l ∈ lives, (decide (l.expiry > 0) && decide (o.now > l.expiry)) = false)
+    (h : openCleanB img size lives = true) :
     ∃ (r : Recovered) (L : List Rec), (recoverImage img size o).result = .ok r ∧ (recoverImage img size o).io = [] ∧ r.image = img ∧
       L.length = lives.length ∧ r.live = L.foldl (fun lv r => absorbLive lv (liveOf (infoOf lives) r)) [] := by
   unfold openCleanB at h
@@ -78,7 +90,11 @@ theorem openCleanB_sound {img : Image} {size : Nat} {lives : List Live} {o : Opt
         simp only [Bool.and_eq_true, beq_iff_eq, decide_eq_true_eq] at htile
         obtain ⟨hlen, hnd⟩ := htile
         obtain ⟨r, h1, h2, h3, _, h5⟩ := recover_clean_image img size o (infoOf lives) (labelOf img md.version lives) L md js
-          hro httl hsize himg hnz hsig hmd hjs hclear (repB_sound hrep) (tileOf_sound _ _ _ hL) (marksCleanB_sound hmarks) hnd
+          hro hsize himg hnz hsig hmd hjs hclear (repB_sound hrep) (tileOf_sound _ _ _ hL) (marksCleanB_sound hmarks) hnd
+          (fun httl => no_expired_of_records (infoOf lives) o.now L (fun r _ => by
+            rcases getD_mem_or_default lives r.2.1 default with hm | hd
+            · exact hexp httl _ hm
+            · simp only [infoOf, hd]; rfl))
         exact ⟨r, L, h1, h2, h3, hlen, h5⟩
 
 end Feox.Fmt
